@@ -187,6 +187,9 @@ class SymInt(object):
             return o
         if not self.s and not o.s:
             w = self.n + o.n
+            if MUL['uf'] and (self.n > MUL['exact_max'] or o.n > MUL['exact_max']) and not z3.is_bv_value(self.t) \
+                    and not z3.is_bv_value(o.t):
+                return SymInt.mk(_mul_uf(self.t, o.t), False, self.lo * o.lo, self.hi * o.hi)
             return SymInt.mk(_ext(self.t, False, w) * _ext(o.t, False, w), False,
                              self.lo * o.lo, self.hi * o.hi)
         ta, na = _to_signed(self)
@@ -328,6 +331,34 @@ class SymInt(object):
 
 
 numbers.Integral.register(SymInt)
+
+# Wide multiplication (C02): both the Python product and the limb products of the generated C are expressed over one
+# uninterpreted function mul64: BV64 x BV64 -> BV128 (school-book identity sum_ij mul64(a_i, b_j) << 64(i+j)); every
+# application carries the sound range fact mul64(x, y) < 2^(|x|+|y|) for the known operand widths.
+MUL = {'uf': False, 'exact_max': 8}
+UF_FACTS = []
+mul64 = z3.Function('mul64', z3.BitVecSort(64), z3.BitVecSort(64), z3.BitVecSort(128))
+
+
+def _mul_uf(ta, tb):
+    na, nb = ta.size(), tb.size()
+    w = na + nb
+    acc = z3.BitVecVal(0, w)
+    for i in range(0, na, 64):
+        wa = min(64, na - i)
+        ai = z3.ZeroExt(64 - wa, z3.Extract(i + wa - 1, i, ta)) if wa < 64 or na != 64 else ta
+        for j in range(0, nb, 64):
+            wb = min(64, nb - j)
+            bj = z3.ZeroExt(64 - wb, z3.Extract(j + wb - 1, j, tb)) if wb < 64 or nb != 64 else tb
+            p = mul64(ai, bj)
+            # sound range fact: a product of a wa-bit and a wb-bit number is at most (2^wa-1)(2^wb-1)
+            UF_FACTS.append(z3.ULE(p, z3.BitVecVal(((1 << wa) - 1) * ((1 << wb) - 1), 128)))
+            term = _ext(p, False, w) if w <= 128 else z3.ZeroExt(w - 128, p)
+            sh = i + j
+            if sh:
+                term = term << sh
+            acc = acc + term
+    return acc
 
 
 class SymBool(object):
